@@ -4150,7 +4150,8 @@ class DecAffine(Affine):
 
         expr = super().sum(axis)
 
-        return DecAffine(self.dro_model, expr, self.event_adapt, self.fixed)
+        return DecAffine(self.dro_model, expr, self.event_adapt, self.fixed,
+                         self.ctype)
 
     def trace(self):
         """
@@ -4165,7 +4166,8 @@ class DecAffine(Affine):
 
         expr = super().trace()
 
-        return DecAffine(expr.dro_model, expr, self.event_adapt, self.fixed)
+        return DecAffine(expr.dro_model, expr, self.event_adapt, self.fixed,
+                         self.ctype)
 
     def expcone(self, x, z):
         """
